@@ -93,6 +93,31 @@ Proof.
   intros H. apply qsolve_sound in H as [H _]. exists Pe, Px. repeat split; assumption.
 Qed.
 
+Lemma atpa_wf n A P : wf_mat n A -> wf_mat n (atpa n A P) /\ length (atpa n A P) = n.
+Proof.
+  intros HA. split.
+  - unfold atpa, wf_mat. apply Forall_forall. intros r Hr. apply in_map_iff in Hr. destruct Hr as [i [<- _]].
+    apply q_mattvec_length. exact HA.
+  - unfold atpa. rewrite map_length, seq_length. reflexivity.
+Qed.
+
+(* ... and with symmetric noise precision these are the normal equations A^T Pe A y + Px y = A^T Pe b + Px x0 *)
+Theorem post_mean_exact_normal_eq m n A b x0 ce cx y :
+  post_mean_exact m n A b x0 ce cx = Some y ->
+  exists Pe Px, qinv (dense_of true m ce) = Some Pe /\ qinv (dense_of true n cx) = Some Px /\
+    (wf_mat n A -> length A = m -> wf_mat m Pe -> length Pe = m -> q_sym m Pe -> wf_mat n Px -> length Px = n ->
+     length y = n ->
+     qvadd (qmattvec n A (qmatvec Pe (qmatvec A y))) (qmatvec Px y) =
+     qvadd (qmattvec n A (qmatvec Pe b)) (qmatvec Px x0)).
+Proof.
+  intros H. destruct (post_mean_exact_spec m n A b x0 ce cx y H) as (Pe & Px & I1 & I2 & E).
+  exists Pe, Px. split; [exact I1|]. split; [exact I2|].
+  intros HA HAm HPe HPem HS HPx HPxn Hy.
+  destruct (atpa_wf n A Pe HA) as [W1 W2].
+  unfold post_prec in E. rewrite (q_matvec_qmadd n (atpa n A Pe) Px y W1 HPx) in E by (transitivity n; [exact W2 | symmetry; exact HPxn]).
+  rewrite (q_atpa_matvec m n A Pe y HA HAm HPe HPem HS Hy) in E. exact E.
+Qed.
+
 (* refusals: a Gaussian created with prec / sqrtcov / sqrtprec (and no compute_cov() since) makes MAP and the direct
    sampler raise NotImplementedError -- never a value; a length-1 mean with n > 1 raises ValueError *)
 Theorem refusal fixed m n A b x0 p c other :
